@@ -41,6 +41,11 @@ class Recorder:
         # step uuid -> the calculation was OBSERVED to be in place: calculate_feature returned the very object it was handed
         # (cfw.data) or a pandas Series (which PandasDataFrame.transform inserts into the frame the object holds)
         self.style: Dict[Any, bool] = {}
+        self.threads: Dict[Any, Any] = {}                # step uuid -> thread on which its execute() runs
+        # mid-pass completion: {"uuid": step uuid, "key": gate key, "armed": bool, "fired_scan": int | None}.  When armed, the
+        # plan iterator releases that step's gate just BEFORE it hands the step to the orchestrator's for loop and waits for the
+        # worker thread to end: the completion / failure lands between the loop's error check and the visit of the step.
+        self.midpass: Optional[Dict[str, Any]] = None
 
     def ev(self, kind: str, u: Any) -> None:
         with self.lock:
@@ -76,6 +81,7 @@ def install() -> None:
                                          "right_uuid": getattr(self, "right_framework_uuid", None)}
             except Exception:  # noqa: BLE001
                 pass
+            REC.threads[self.uuid] = threading.current_thread()
             REC.ev("begin", self.uuid)
             if REC.gating and gate_at_entry:
                 _wait_gate(self.uuid)
@@ -116,7 +122,9 @@ def install() -> None:
     def counting_iter(self: Any) -> Any:
         with REC.lock:
             REC.scans += 1
-        return orig_iter(self)
+        if REC.midpass is None:
+            return orig_iter(self)
+        return _midpass_iter(orig_iter(self))
     ExecutionPlan.__iter__ = counting_iter  # type: ignore[method-assign]
 
     orig_transform = TransformFrameworkStep.transform
@@ -157,6 +165,22 @@ def install() -> None:
 
 
 LAST: Dict[str, Any] = {}
+
+
+def _midpass_iter(inner: Any) -> Any:
+    """Plan iterator of a gated run with a mid-pass completion (see Recorder.midpass)."""
+    for step in inner:
+        mp = REC.midpass
+        if mp is not None and mp.get("armed") and getattr(step, "uuid", None) == mp["uuid"]:
+            mp["armed"] = False
+            with REC.lock:
+                mp["fired_scan"] = REC.scans
+                REC.gates.setdefault(mp["key"], threading.Event()).set()
+            th = REC.threads.get(mp["uuid"])
+            if th is not None and th is not threading.current_thread():
+                th.join(10)
+                mp["worker_ended"] = not th.is_alive()
+        yield step
 
 
 def export_adj(plan: Dict[str, Any]) -> List[Tuple[int, List[int]]]:
@@ -352,9 +376,11 @@ class PyOrchModel:
 
 def run_gated(uni: Universe, session: Any, plan: Dict[str, Any], rng: random.Random,
               choose: Optional[Callable[[List[int]], int]] = None, fail_sids: Set[int] = frozenset(),  # type: ignore[assignment]
-              timeout: float = 40.0, stream: bool = False) -> Dict[str, Any]:
+              timeout: float = 40.0, stream: bool = False, midpass_sid: Optional[int] = None) -> Dict[str, Any]:
     """THREADING run in which every started step blocks at its gate and is released one at a time.
-    Returns the history: list of rounds {expected (model), blocked (observed), released} + outcome."""
+    Returns the history: list of rounds {expected (model), blocked (observed), released} + outcome.
+    midpass_sid: that step is not released by the driver but by the plan iterator, in the middle of a pass of the
+    orchestrator's loop, right before the loop visits it (and the iterator waits until the worker thread has ended)."""
     from mloda.user import ParallelizationMode
     install()
     u2s = uuid_to_sid(session)
@@ -363,6 +389,9 @@ def run_gated(uni: Universe, session: Any, plan: Dict[str, Any], rng: random.Ran
     REC.gating = True
     sid_of_key = {v: k for k, v in key_of.items()}
     out: Dict[str, Any] = {"rounds": [], "events": []}
+    if midpass_sid is not None:
+        REC.midpass = {"uuid": [u for u, s in u2s.items() if s == midpass_sid][0], "key": key_of[midpass_sid], "armed": False,
+                       "fired_scan": None}
 
     def target() -> None:
         try:
@@ -413,8 +442,12 @@ def run_gated(uni: Universe, session: Any, plan: Dict[str, Any], rng: random.Ran
             pick = choose(expected) if choose else rng.choice(expected)
             rnd["released"] = pick
             n_ev = len(REC.events)
-            with REC.lock:
-                REC.gates[key_of[pick]].set()
+            if midpass_sid is not None and pick == midpass_sid:
+                REC.midpass["armed"] = True          # type: ignore[index]
+                rnd["midpass"] = True
+            else:
+                with REC.lock:
+                    REC.gates[key_of[pick]].set()
             # wait until that step ends or raises
             real_uuid = [u for u, s in u2s.items() if s == pick][0]
             deadline = time.time() + 10
@@ -439,6 +472,9 @@ def run_gated(uni: Universe, session: Any, plan: Dict[str, Any], rng: random.Ran
                 model.failed.insert(0, pick)
     finally:
         REC.gating = False
+        if REC.midpass is not None:
+            out["midpass"] = {k: v for k, v in REC.midpass.items() if k in ("fired_scan", "worker_ended")}
+        REC.midpass = None
         with REC.lock:
             for ev in REC.gates.values():
                 ev.set()
